@@ -87,6 +87,13 @@ def gen_string(sink_name, j):
     if j < len(MUST):
         return MUST[j]
     rnd = env.rng("C05", sink_name, j)
+    if j in (len(MUST), len(MUST) + 1):
+        # a long markup-heavy string: exactly the documented 255-character maximum (and one less) for core properties, 400 elsewhere
+        n = (255 if j == len(MUST) else 254) if sink_name.startswith("core:") else 400
+        s = ""
+        while len(s) < n:
+            s += rnd.choice(ATOMS[:60]) if rnd.random() < 0.7 else rnd.choice(WORDS)
+        return s[:n].rstrip("&<") + "x" * (n - len(s[:n].rstrip("&<")))
     parts = []
     for _ in range(rnd.choice([1, 2, 2, 3, 3, 4, 5, 6])):
         parts.append(rnd.choice(ATOMS) if rnd.random() < 0.72 else rnd.choice(WORDS))
@@ -101,7 +108,7 @@ def gen_string(sink_name, j):
 def fit(s, sink):
     """Restrict s to the sink's domain (see ASSUMPTIONS)."""
     if sink.dom == "file":
-        s = s.replace("/", "").replace("\v", "")
+        s = s.replace("/", "").replace("\v", "")[:100]  # a real file of that name is created
     elif sink.dom == "text":
         s = s.replace("\r", "")
         if not sink.breaks:
@@ -292,6 +299,34 @@ def _click_link(d, s):
     return {"id": sh.shape_id}
 
 
+def _variant(s):
+    """An address a caller may well also use on the same slide: the same string in the other letter case, or with a
+    trailing '/', whichever differs from s."""
+    v = s.swapcase()
+    return v if v != s else s + "/"
+
+
+def _link_after_variant(kind):
+    """Two hyperlinks on one slide: first one to a near-variant of s, then one to s; each must keep its own address."""
+    def do(d, s):
+        class OneSlide:  # both links go on the same slide (Deck.slide() adds a new one per call)
+            sl = d.slide()
+            slide = staticmethod(lambda layout=6: OneSlide.sl)
+
+        h1 = (_run_link if kind == "run" else _click_link)(OneSlide, _variant(s))
+        h2 = (_run_link if kind == "run" else _click_link)(OneSlide, s)
+        return {"id": h2["id"], "first": h1["id"], "first_addr": _variant(s)}
+
+    def api(prs, h):
+        get = (lambda sh: sh.text_frame.paragraphs[0].runs[0].hyperlink.address) if kind == "run" else (lambda sh: sh.click_action.hyperlink.address)
+        first = get(shape_of(prs, {"id": h["first"]}))
+        if first != h["first_addr"]:
+            return "<the FIRST link on the slide now reads %r, it was given %r>" % (first, h["first_addr"])
+        return get(shape_of(prs, h))
+
+    return do, api
+
+
 def _chart(build, ct="COLUMN_CLUSTERED", after=None, replace=False):
     def do(d, s):
         gf = add_chart(d, cat_data() if replace else build(s), ct)
@@ -413,6 +448,10 @@ def _register():
          member="ppt/slides/_rels/slide1.xml.rels", xp=rel, nonempty=True)
     sink("hyperlink:click-action", "hyperlink-address", _click_link, lambda prs, h: shape_of(prs, h).click_action.hyperlink.address,
          member="ppt/slides/_rels/slide1.xml.rels", xp=rel, nonempty=True)
+
+    for kind in ("run", "click-action"):
+        do, api = _link_after_variant("run" if kind == "run" else "click")
+        sink("hyperlink:%s:after-near-variant" % kind, "hyperlink-address", do, api, nonempty=True)
 
     # ---- charts
     ser_name = lambda prs, h: chart_of(prs, h).plots[0].series[0].name  # noqa: E731
